@@ -230,6 +230,56 @@ eq("equal_null 1 NULL", sf.equal_null(1, None), False)
 eq("equal_null NULL 1", sf.equal_null(None, 1), False)
 eq("equal_null NULL NULL", sf.equal_null(None, None), True)
 
+# ---- three-valued logic and operator contexts (SQL standard truth tables; Snowflake "Logical operators", "IN") ----------
+eq("NULL AND FALSE", sf.sql_and(None, False), False)
+eq("NULL AND TRUE", sf.sql_and(None, True), None)
+eq("TRUE AND TRUE", sf.sql_and(True, True), True)
+eq("NULL OR TRUE", sf.sql_or(None, True), True)
+eq("NULL OR FALSE", sf.sql_or(None, False), None)
+eq("FALSE OR FALSE", sf.sql_or(False, False), False)
+eq("NOT NULL", sf.sql_not(None), None)
+eq("NOT TRUE", sf.sql_not(True), False)
+eq("1 = NULL", sf.sql_cmp("=", 1, None), None)
+eq("1 < 2", sf.sql_cmp("<", 1, 2), True)
+eq("1 IN (2, NULL)", sf.sql_in(1, [2, None]), None)
+eq("1 IN (1, NULL)", sf.sql_in(1, [1, None]), True)
+eq("1 IN (2)", sf.sql_in(1, [2]), False)
+eq("NULL IN (1)", sf.sql_in(None, [1]), None)
+eq("different bool", sf.different(False), True)
+eq("different int", sf.different(3), 4)
+eq("different str", sf.different("a"), "ax")
+eq("different date", sf.different(D(2024, 2, 29)), D(2024, 3, 1))
+_oc = {tpl: (val, k) for _f, tpl, val, k in sf.operator_contexts(False, "bool")}
+# a call whose value is FALSE (EQUAL_NULL(1, 2)) as an operand
+eq("F = FALSE", _oc["{F} = {V}"], (True, "bool"))
+eq("F = TRUE", _oc["{F} = {W}"], (False, "bool"))
+eq("F IS NULL", _oc["{F} IS NULL"], (False, "bool"))
+eq("F IN (TRUE)", _oc["{F} IN ({W})"], (False, "bool"))
+eq("F IN (TRUE, FALSE)", _oc["{F} IN ({W}, {V})"], (True, "bool"))
+eq("NOT F", _oc["NOT {F}"], (True, "bool"))
+eq("F OR TRUE", _oc["{F} OR TRUE"], (True, "bool"))
+eq("F AND NULL", _oc["{F} AND NULL"], (False, "bool"))
+eq("NULL OR F", _oc["NULL OR {F}"], (None, "bool"))
+eq("F::VARCHAR", _oc["{F}::VARCHAR"], ("false", "str"))
+eq("F = F", _oc["{F} = {F}"], (True, "bool"))
+_oc = {tpl: (val, k) for _f, tpl, val, k in sf.operator_contexts(Decimal("12.35"), "num")}
+eq("100 - F", _oc["100 - {F}"], (Decimal("87.65"), "num"))
+eq("100 - F - 1", _oc["100 - {F} - 1"], (Decimal("86.65"), "num"))
+eq("-F", _oc["-{F}"], (Decimal("-12.35"), "num"))
+eq("F < V", _oc["{F} < {V}"], (False, "bool"))
+eq("W >= F", _oc["{W} >= {F}"], (True, "bool"))
+eq("F BETWEEN", _oc["{F} BETWEEN {V} AND {W}"], (True, "bool"))
+eq("V BETWEEN W AND F", _oc["{V} BETWEEN {W} AND {F}"], (False, "bool"))
+eq("NULLIF(F, V)", _oc["NULLIF({F}, {V})"], (None, "num"))
+_oc = {tpl: (val, k) for _f, tpl, val, k in sf.operator_contexts("ab", "str")}
+eq("'x' || F || 'y'", _oc["'x' || {F} || 'y'"], ("xaby", "str"))
+_oc = {tpl: (val, k) for _f, tpl, val, k in sf.operator_contexts(D(2024, 2, 29), "date")}
+eq("date + 1", _oc["{F} + 1"], (D(2024, 3, 1), "date"))
+eq("date::TIMESTAMP_NTZ", _oc["{F}::TIMESTAMP_NTZ"], (TS(2024, 2, 29), "ts"))
+_oc = {tpl: (val, k) for _f, tpl, val, k in sf.operator_contexts(None, "str")}
+eq("NULL call IS NULL", _oc["{F} IS NULL"], (True, "bool"))
+eq("NULL call = itself", _oc["{F} = {F}"], (None, "bool"))
+
 print(f"test_c10: {N[0]} expectations, {len(FAIL)} failed")
 for f in FAIL:
     print("  FAIL", f)
